@@ -10,8 +10,7 @@ EXPLANATION = (
     "are run concretely through the same code. Codec inverse-ness is C18. "
 )
 OUTSIDE = ("int/float/Decimal <-> text (CPython C code; CrossHair's Decimal model fails on symbolic strings): only lattice corners are executed; Date.decode returning a datetime for a "
-           "plain date (documented return type of the codec; dispatch is what is judged); VarSet/UserFieldDecl/UserDefined carriers (they share ElementTyped.set_value_and_type); "
-           "save/reload; strings longer than 3 characters; currency/percentage cell types")
+           "plain date (documented return type of the codec; dispatch is what is judged); save/reload; strings longer than 4 characters (6 in the thorough tier); currency/percentage cell types")
 ASSUMPTIONS = ["one representative object per Python type (an enumeration of the type lattice, not a solver claim); the solver's part is the strings"]
 TRUSTED = _T
 _ENC = ["src/odfdo/element_typed.py:ElementTyped.set_value_and_type,_get_typed_value,get_value", "src/odfdo/cell.py:Cell.__init__,value (getter/setter),set_value,date/datetime/duration/string/bool setters",
@@ -28,7 +27,38 @@ for _k in ("date", "datetime", "timedelta"):
                                encodes=_ENC, stubs=_STUB))
 OBLIGATIONS += [
     Obl(name="cell_string", module="h_typed", func="cell_string", shadow=True, timeout=120, replay="r_h_typed:cell_string", weight=5,
-        bounds="str values of <= 3 characters in U+0020..U+D7FF or LF", encodes=_ENC[:2], stubs=_STUB[:1]),
+        bounds="str values of <= 4 characters in U+0020..U+D7FF or LF (the words true and false included)", encodes=_ENC[:2], stubs=_STUB[:1]),
     Obl(name="cell_simple", module="h_typed", func="cell_simple", shadow=True, timeout=120, replay="r_h_typed:cell_simple", weight=5,
         bounds="both booleans (symbolic); ints 0, -3, 12, 10**20, Decimal('1.50'), 2.5, None (concrete)", encodes=_ENC[:2], stubs=_STUB[:1]),
 ]
+
+_CENC = _ENC[:1] + ["src/odfdo/variable.py:VarSet,VarGet,UserFieldDecl,UserFieldGet,UserDefined (__init__, set_value)",
+                    "src/odfdo/element.py:get_variable_set_value,get_user_field_value,get_user_defined_value"]
+for _c in ("varset", "varget", "userfielddecl", "userfieldget", "userdefined"):
+    for _k in ("date", "datetime", "timedelta"):
+        OBLIGATIONS.append(Obl(name=f"carrier_temporal_{_c}_{_k}", module="h_typed", func="carrier_temporal", shadow=True, timeout=120,
+                               env={"VERIF_KIND": _k, "VERIF_CARRIER": _c}, extra={"kind": _k, "carrier": _c}, replay="r_h_typed:carrier_temporal", weight=4,
+                               bounds=f"{_c} holding a {_k}; encoded string a + ('T' if dateTime) + b with a, b arbitrary strings of <= 1 character",
+                               encodes=_CENC, stubs=_STUB[:2]))
+    OBLIGATIONS.append(Obl(name=f"carrier_string_{_c}", module="h_typed", func="carrier_string", shadow=True, timeout=120, env={"VERIF_CARRIER": _c},
+                           extra={"carrier": _c}, replay="r_h_typed:carrier_string", weight=4,
+                           bounds=f"{_c} holding a str of <= 4 characters in U+0020..U+D7FF", encodes=_CENC, stubs=_STUB[:1]))
+    OBLIGATIONS.append(Obl(name=f"carrier_simple_{_c}", module="h_typed", func="carrier_simple", shadow=True, timeout=120, env={"VERIF_CARRIER": _c},
+                           extra={"carrier": _c}, replay="r_h_typed:carrier_simple", weight=4,
+                           bounds=f"{_c} holding either boolean (symbolic), ints 0, -3, 12, 10**20, Decimal('1.50'), None (concrete)", encodes=_CENC, stubs=_STUB[:1]))
+
+# thorough tier: the same obligations with longer strings (VERIF_DEPTH: +1 / +2 characters)
+import copy as _copy  # noqa: E402
+
+for _o in list(OBLIGATIONS):
+    if _o.func.endswith("_simple"):
+        continue
+    for _d in (1, 2):
+        _n = _copy.copy(_o)
+        _n.name = f"{_o.name}@d{_d}"
+        _n.tier = "thorough"
+        _n.env = dict(_o.env or {}, VERIF_DEPTH=str(_d))
+        _n.timeout = 600 if _d == 1 else 1500
+        _n.weight = (_o.weight or 4) * (6 if _d == 1 else 40)
+        _n.bounds = _o.bounds + f"; each string bound raised by {_d}"
+        OBLIGATIONS.append(_n)
